@@ -29,6 +29,9 @@ type evRec struct {
 	Dur  int64 // State.Duration in model units (-1: not a small whole number of units)
 	ID   string
 	B, N int // step / point index carried in the event's fields
+	Prev int // PreviousState().Level as the handler sees it
+	// MsgOK: the default message template rendered "<id> is <LEVEL>"; Recov: Data.Recoverable
+	MsgOK, Recov bool
 }
 
 // fwdRec is one data point forwarded downstream of the alert node.
@@ -36,6 +39,9 @@ type fwdRec struct {
 	Lvl int
 	Dur int64
 	ID  string
+	// levelTag / idTag on the forwarded point
+	TagLvl int
+	TagID  string
 }
 
 // stepObs is everything observed for one input step of one ID.
@@ -89,7 +95,9 @@ func (c *collector) Handle(e alert.Event) {
 		k = -1
 	}
 	r := evRec{Lvl: int(e.State.Level), T: k, Dur: durUnits(e.State.Duration), ID: e.State.ID,
-		B: intField(e.Data.Fields, "b"), N: intField(e.Data.Fields, "n")}
+		B: intField(e.Data.Fields, "b"), N: intField(e.Data.Fields, "n"),
+		Prev: int(e.PreviousState().Level), MsgOK: e.State.Message == e.State.ID+" is "+e.State.Level.String(),
+		Recov: e.Data.Recoverable}
 	c.mu.Lock()
 	c.evs[e.Data.Tags["g"]] = append(c.evs[e.Data.Tags["g"]], r)
 	c.n++
@@ -251,7 +259,7 @@ func (x *Exec) Run(cfg Cfg, seqs []Seq, ids []string) [][]stepObs {
 			f := p.Fields()
 			o := put(p.Tags()["g"], intField(f, "b"))
 			o.NFwd++
-			o.Fwd = append(o.Fwd, fwdOf(f))
+			o.Fwd = append(o.Fwd, fwdOf(f, p.Tags()))
 		} else if it.Batch != nil {
 			bb := it.Batch
 			if len(bb.Points()) == 0 {
@@ -260,7 +268,7 @@ func (x *Exec) Run(cfg Cfg, seqs []Seq, ids []string) [][]stepObs {
 			o := put(bb.Tags()["g"], intField(bb.Points()[0].Fields(), "b"))
 			o.NFwd++
 			for _, bp := range bb.Points() {
-				o.Fwd = append(o.Fwd, fwdOf(bp.Fields()))
+				o.Fwd = append(o.Fwd, fwdOf(bp.Fields(), bp.Tags()))
 			}
 		}
 		x.Forwarded++
@@ -269,8 +277,19 @@ func (x *Exec) Run(cfg Cfg, seqs []Seq, ids []string) [][]stepObs {
 	return out
 }
 
-func fwdOf(f models.Fields) fwdRec {
-	r := fwdRec{Lvl: -1, Dur: -1}
+func b2i(b bool) int {
+	if b {
+		return 1
+	}
+	return 0
+}
+
+func fwdOf(f models.Fields, tags models.Tags) fwdRec {
+	r := fwdRec{Lvl: -1, Dur: -1, TagLvl: -1}
+	if s, ok := tags["lt"]; ok {
+		r.TagLvl = levelOfString(s)
+	}
+	r.TagID = tags["it"]
 	if s, ok := f["l"].(string); ok {
 		r.Lvl = levelOfString(s)
 	}
@@ -295,14 +314,15 @@ func emit(t *rt.Trace, cfg Cfg, id string, s Seq, obs []stepObs) {
 		o := obs[b]
 		evs, eids := []any{}, []any{}
 		for _, e := range o.Ev {
-			evs = append(evs, []any{e.Lvl, e.T, e.Dur, e.N})
+			evs = append(evs, []any{e.Lvl, e.T, e.Dur, e.N, e.Prev, b2i(e.MsgOK), b2i(e.Recov)})
 			eids = append(eids, e.ID)
 		}
-		fw, fids := []any{}, []any{}
+		fw, fids, ftids := []any{}, []any{}, []any{}
 		for _, f := range o.Fwd {
-			fw = append(fw, []any{f.Lvl, f.Dur})
+			fw = append(fw, []any{f.Lvl, f.Dur, f.TagLvl})
 			fids = append(fids, f.ID)
+			ftids = append(ftids, f.TagID)
 		}
-		t.Event("S", rt.M{"id": id, "pts": pts, "tmax": tmaxs[b], "o": evs, "oid": eids, "nf": o.NFwd, "f": fw, "fid": fids})
+		t.Event("S", rt.M{"id": id, "pts": pts, "tmax": tmaxs[b], "o": evs, "oid": eids, "nf": o.NFwd, "f": fw, "fid": fids, "ftid": ftids})
 	}
 }
